@@ -36,7 +36,7 @@ pub fn fld(name: &str, lo: u32, w: u32, ty: FieldTy, access: Access) -> Field {
 }
 
 pub fn lay(bits: u32, fields: Vec<Field>) -> Layout {
-    Layout { name: "S".into(), base_bits: bits, default: None, default_colon: false, debug: false, fields, enums: vec![], inners: vec![], debug_first: false, vis: 0 }
+    Layout { name: "S".into(), base_bits: bits, default: None, default_colon: false, debug: false, fields, enums: vec![], inners: vec![], debug_first: false, vis: 0, decoys: 0 }
 }
 
 pub fn uty(w: u32) -> FieldTy {
@@ -92,7 +92,7 @@ pub fn sys_scalars(tier: Tier, access: Access) -> Vec<Layout> {
     out
 }
 
-fn small_enum(name: &str, bits: u32, plain: bool) -> EnumDecl {
+pub fn small_enum(name: &str, bits: u32, plain: bool) -> EnumDecl {
     let n = 1u128 << bits;
     let mut variants = Vec::new();
     if plain {
